@@ -212,6 +212,7 @@ package mcp
 
 // init: find or create the list of (sessionID, streamID); every other stream is untouched.
 //@ func (*MemoryEventStore).init [C20]
+//@   holds esmu s
 //@   nopanic
 //@   requires storeWF(s)
 //@   modifies mapOf(s.store), mapOf(s.store[sessionID])
@@ -234,6 +235,7 @@ package mcp
 
 // purge: evicts oldest-first until the byte budget is met; the set of streams is untouched.
 //@ func (*MemoryEventStore).purge [C20]
+//@   holds esmu s
 //@   requires storeWF(s)
 //@   modifies s.nBytes, fields(dataList.first), fields(dataList.size), fields(dataList.data), allElems("[]byte")
 //@   ensures @wf-shape storeShape(s)
@@ -265,6 +267,7 @@ package mcp
 
 // validate only reads (it panics if the debug flag is on and the byte count is off).
 //@ func (*MemoryEventStore).validate [C20]
+//@   holds esmu s
 //@   requires s != nil
 
 //@ func (*MemoryEventStore).Open [C20]
@@ -1221,3 +1224,14 @@ package mcp
 //@   ensures @cache-filled-only-through-the-checked-path calls(uncheckedFill) == 0
 //@   assert at call handleSend: @count-read-before-the-request-is-sent calls(epoch) == 1
 //@   assert at call putIfCurrent: @fill-is-checked-against-the-count-read-before-sending calls(epoch) == 1 && calls(send) == 1 && $3 == callResult(epoch, 1, 0)
+
+// ---------------------------------------------------------------------------------------------
+// C20: lock discipline of the in-memory event store
+// ---------------------------------------------------------------------------------------------
+// The sequential contracts of MemoryEventStore (above) describe one critical section each; this monitor adds the
+// obligation that the store's fields are touched only between s.mu.Lock() and s.mu.Unlock() (or in functions that
+// are documented to run with the lock held), so those critical sections really are the only accesses.
+//@ monitor esmu lock MemoryEventStore.mu as s [C20]
+//@   discipline-only
+//@   protects fields(MemoryEventStore.maxBytes), fields(MemoryEventStore.nBytes), fields(MemoryEventStore.store)
+//@   unpublished NewMemoryEventStore
